@@ -223,7 +223,7 @@ func ruleP14Model(p *Prog, r *Report) {
 	tags := p.method("klog", "RecordSummary", "Tags")
 	if r.anchorFn("P14-once", tags, "klog.RecordSummary.Tags") {
 		var find ssa.CallInstruction
-		eachInstr(tags, func(in ssa.Instruction) {
+		eachVInstr(tags, func(in ssa.Instruction) {
 			if c, ok := in.(ssa.CallInstruction); ok {
 				if n, _, _, _ := methodCallOf(c); n == "FindAllStringSubmatch" || n == "FindAllString" {
 					find = c
@@ -241,7 +241,7 @@ func ruleP14Model(p *Prog, r *Report) {
 		}
 		r.check(ok, "P14-once", "Summary.Tags:all-matches", p.pos(tags.Pos()), "all matches (n = -1) of the tag pattern in every summary line", "Summary.Tags does not collect all tag matches of all lines")
 		okPut := false
-		eachInstr(tags, func(in ssa.Instruction) {
+		eachVInstr(tags, func(in ssa.Instruction) {
 			if c, isC := in.(ssa.CallInstruction); isC && sameFn(staticCallee(c), put) {
 				if tc, idx := callOf(c.Common().Args[1]); tc != nil && idx == 0 && staticCallee(tc) != nil && fnBase(staticCallee(tc)) == "NewTagFromString" {
 					// the text handed over is the WHOLE match: m[0] of a submatch list, or the
@@ -683,6 +683,10 @@ func ruleP20Fields(p *Prog, r *Report) {
 			if ok {
 				only, _ := onlyLoopGuards(apps[0].Block())
 				ok = only
+			} else if puts, src, isFill := sliceFill(retResult(ret, 0)); isFill && len(apps) == 0 {
+				// the pre-sized spelling: make([]T, len(input)) filled under the range index
+				only, _ := onlyLoopGuards(puts[0].Block())
+				ok = len(puts) == 1 && only && strip(src) == ssa.Value(f.Params[0])
 			}
 			r.check(ok, rule, fnBase(f)+":one-per-element", p.instrPos(ret), "one view per element, appended in input order", fnBase(f)+" does not append exactly one view per element in order")
 		}
@@ -697,19 +701,28 @@ func ruleP20Run(p *Prog, r *Report) {
 		return
 	}
 	var read ssa.CallInstruction
-	var prints []ssa.CallInstruction
-	eachInstr(run, func(in ssa.Instruction) {
-		c, ok := in.(ssa.CallInstruction)
+	// the print sites, also those inside a helper (once per call of the helper)
+	var prints []vinstr
+	whereOf := map[ssa.Instruction][]*ssa.BasicBlock{}
+	for _, vi := range virtualInstrs(run) {
+		c, ok := vi.in.(ssa.CallInstruction)
 		if !ok || !c.Common().IsInvoke() {
-			return
+			continue
 		}
 		switch c.Common().Method.Name() {
 		case "ReadInputs":
 			read = c
 		case "Print":
-			prints = append(prints, c)
+			prints = append(prints, vi)
 		}
-	})
+	}
+	where := func(vi vinstr) *ssa.BasicBlock {
+		if len(vi.chain) > 0 {
+			return vi.chain[0].Block()
+		}
+		return vi.in.Block()
+	}
+	_ = whereOf
 	if read == nil {
 		r.bad(rule, "read", p.pos(run.Pos()), "Json.Run does not read its inputs")
 		return
@@ -720,66 +733,71 @@ func ruleP20Run(p *Prog, r *Report) {
 		return
 	}
 	// classify prints
-	var errPrint, okPrint ssa.CallInstruction
-	for _, pc := range prints {
-		var tj ssa.CallInstruction
-		var leaves []ssa.Value
-		concatLeaves(pc.Common().Args[0], &leaves, 0)
-		for _, l := range leaves {
-			if c, ok := isCallTo(l, toJson, 0); ok {
-				tj = c
+	var errPrint, okPrint *ssa.BasicBlock
+	for _, vi := range prints {
+		vi := vi
+		pc := vi.in.(ssa.CallInstruction)
+		at := where(vi)
+		vi.run(func() {
+			var tj ssa.CallInstruction
+			var leaves []ssa.Value
+			concatLeaves(pc.Common().Args[0], &leaves, 0)
+			for _, l := range leaves {
+				if c, ok := isCallTo(l, toJson, 0); ok {
+					tj = c
+				}
 			}
-		}
-		if tj == nil {
-			r.bad(rule, "print:other", p.instrPos(pc), "Json.Run prints something that is not one JSON document")
-			continue
-		}
-		a := tj.Common().Args
-		switch {
-		case isNilConst(a[0]) && !isNilConst(a[1]):
-			errPrint = pc
-			// errors: All() of the type-asserted parser errors
-			n, recv, _, _ := methodCall(a[1])
-			okSrc := false
-			if n == "All" {
-				if ex, ok := strip(recv).(*ssa.Extract); ok && ex.Index == 0 {
-					if ta, ok := ex.Tuple.(*ssa.TypeAssert); ok && sameValue(ta.X, rErr) && typeNameOf(ta.AssertedType) == "ParserErrors" {
-						okSrc = true
-						// printed on the ok edge
-						okEdge := false
-						for _, g := range guardsOf(pc.Block()) {
-							if e2, ok := g.Cond.(*ssa.Extract); ok && e2.Tuple == ssa.Value(ta) && e2.Index == 1 && g.Pol {
-								okEdge = true
+			if tj == nil {
+				r.bad(rule, "print:other", p.instrPos(pc), "Json.Run prints something that is not one JSON document")
+				return
+			}
+			a := tj.Common().Args
+			switch {
+			case isNilConst(a[0]) && !isNilConst(a[1]):
+				errPrint = at
+				// errors: All() of the type-asserted parser errors
+				n, recv, _, _ := methodCall(a[1])
+				okSrc := false
+				if n == "All" {
+					if ex, ok := strip(recv).(*ssa.Extract); ok && ex.Index == 0 {
+						if ta, ok := ex.Tuple.(*ssa.TypeAssert); ok && sameValue(ta.X, rErr) && typeNameOf(ta.AssertedType) == "ParserErrors" {
+							okSrc = true
+							// printed on the ok edge
+							okEdge := false
+							for _, g := range guardsOf(at) {
+								if e2, ok := g.Cond.(*ssa.Extract); ok && e2.Tuple == ssa.Value(ta) && e2.Index == 1 && g.Pol {
+									okEdge = true
+								}
 							}
+							okSrc = okEdge
 						}
-						okSrc = okEdge
 					}
 				}
-			}
-			r.check(okSrc && knownNonNil(pc.Block(), rErr), rule, "errors:document", p.instrPos(pc), "parser errors -> ToJson(nil, thoseErrors.All(), pretty)", "the error document is not built from the parser errors that ReadInputs returned (on the type-assertion's ok edge)")
-		case !isNilConst(a[0]) && isNilConst(a[1]):
-			okPrint = pc
-			r.check(knownNil(pc.Block(), rErr), rule, "records:document", p.instrPos(pc), "the record document is printed only when reading succeeded", "the record document can be printed although reading failed")
-			// records pass ApplyNow / ApplyFilter / ApplySort
-			var names []string
-			v := a[0]
-			for i := 0; i < 6; i++ {
-				c, idx := callOf(v)
-				if c == nil || idx != 0 || staticCallee(c) == nil {
-					break
+				r.check(okSrc && knownNonNil(at, rErr), rule, "errors:document", p.instrPos(pc), "parser errors -> ToJson(nil, thoseErrors.All(), pretty)", "the error document is not built from the parser errors that ReadInputs returned (on the type-assertion's ok edge)")
+			case !isNilConst(a[0]) && isNilConst(a[1]):
+				okPrint = at
+				r.check(knownNil(at, rErr), rule, "records:document", p.instrPos(pc), "the record document is printed only when reading succeeded", "the record document can be printed although reading failed")
+				// records pass ApplyNow / ApplyFilter / ApplySort
+				var names []string
+				v := a[0]
+				for i := 0; i < 6; i++ {
+					c, idx := callOf(v)
+					if c == nil || idx != 0 || staticCallee(c) == nil {
+						break
+					}
+					names = append(names, fnBase(staticCallee(c)))
+					v = c.Common().Args[len(c.Common().Args)-1]
 				}
-				names = append(names, fnBase(staticCallee(c)))
-				v = c.Common().Args[len(c.Common().Args)-1]
+				okChain := strings.Join(names, "<") == "ApplySort<ApplyFilter" && sameValue(v, recs)
+				r.check(okChain, rule, "records:pipeline", p.instrPos(pc), "records = ApplySort(ApplyFilter(records read))", "the records printed are not ApplySort(ApplyFilter(the records read)): "+strings.Join(names, "<"))
+			default:
+				r.bad(rule, "print:args", p.instrPos(pc), "ToJson is called with both or neither of records and errors")
 			}
-			okChain := strings.Join(names, "<") == "ApplySort<ApplyFilter" && sameValue(v, recs)
-			r.check(okChain, rule, "records:pipeline", p.instrPos(pc), "records = ApplySort(ApplyFilter(records read))", "the records printed are not ApplySort(ApplyFilter(the records read)): "+strings.Join(names, "<"))
-		default:
-			r.bad(rule, "print:args", p.instrPos(pc), "ToJson is called with both or neither of records and errors")
-		}
-		// pretty flag
-		if tag, _ := fieldTagOfLoad(a[2]); tag != "pretty" {
-			r.bad(rule, "pretty", p.instrPos(pc), "the --pretty flag is not what controls pretty printing")
-		}
+			// pretty flag
+			if tag, _ := fieldTagOfLoad(a[2]); tag != "pretty" {
+				r.bad(rule, "pretty", p.instrPos(pc), "the --pretty flag is not what controls pretty printing")
+			}
+		})
 	}
 	r.check(errPrint != nil && okPrint != nil && len(prints) == 2, rule, "documents", p.pos(run.Pos()), "one error document site and one record document site", fmt.Sprintf("expected exactly one error and one record document, found %d print sites", len(prints)))
 	// every return: nil -> exactly one document printed on the path; non-nil -> none needed
@@ -791,8 +809,8 @@ func ruleP20Run(p *Prog, r *Report) {
 			continue
 		}
 		n := 0
-		for _, pc := range prints {
-			if pc.Block().Dominates(ret.Block()) {
+		for _, vi := range prints {
+			if where(vi).Dominates(ret.Block()) {
 				n++
 			}
 		}
@@ -806,7 +824,7 @@ func ruleP20Run(p *Prog, r *Report) {
 		okExc := true
 		for _, ret := range returnsOf(run) {
 			if knownNonNil(ret.Block(), rErr) && isNilConst(retResult(ret, 0)) {
-				if errPrint == nil || !errPrint.Block().Dominates(ret.Block()) {
+				if errPrint == nil || !errPrint.Dominates(ret.Block()) {
 					okExc = false
 				}
 			}
